@@ -74,6 +74,9 @@ func writeCorpus(dir string) error {
 	gl2.Steps[0].Name = "sub-directory/b"
 	add(&Input{Entry: "thresholds", Klass: "hostile-dir/glob-step-name", Note: "step name with a path separator, link file in the sub-directory", File: unsignedLayout(gl2),
 		Dir: &DirSpec{Files: map[string][]byte{"sub-directory/b." + kp.Pub.KeyID[:8] + ".link": signedFile(mkLink("b", nil, nil), false, kp)}}})
+	for _, n := range []string{"multiblock/ecdsa-declared-first-rsa-as-EC-PARAMETERS-public", "multiblock/rsa-declared-first-ecdsa-as-FOO-both"} {
+		add(&Input{Entry: "key", Klass: "key/multi-block-pem", Note: n, Key: key(n)})
+	}
 	for i, in := range items {
 		b, err := json.MarshalIndent(in, "", " ")
 		if err != nil {
